@@ -11,7 +11,7 @@ from pathlib import Path
 import codec
 
 PROP = "C01"
-LEAN_MODULES = ["Props.C01"]
+LEAN_MODULES = ["Props.C01", "Props.Legacy"]
 RULE = (
     "case = (positional layout of 1-8 fields of mixed kinds in any order with gaps, value list, optional construction "
     "history through the Line setters incl. intermediate delimited use). The real Line writes the values, reads the "
